@@ -596,11 +596,9 @@ def call_method_builtin(eng, recv, name, args, kwargs, fr):
     if isinstance(recv, SetVal):
         if name == "add":
             i = eng.as_label(args[0])
-            was = z3.Select(recv.mem, i)
             if eng.frame_writes is not None:
                 eng.frame_writes.add(id(recv))
-            recv.card = z3.If(was, recv.card, recv.card + 1)
-            recv.mem = z3.Store(recv.mem, i, z3.BoolVal(True))
+            recv.mem, recv.card = eng.facts.card_add(recv.mem, i, recv.card)
             return None
         if name == "copy":
             return eng.alloc(SetVal(recv.mem, recv.card))
